@@ -21,6 +21,10 @@ RULE = ("trace multisets = pools of distinct traces of a fixture module (plain v
         "Optional; distinct = distinct (pool, k, rewriter, store variant, hash seed).")
 
 MODULE = '''
+import collections.abc as _abc
+import typing as _typing
+
+
 class P:
     pass
 
@@ -50,6 +54,66 @@ class Y2(Y):
 
 
 class Z2(Z):
+    pass
+
+
+class Drawable(_typing.Protocol):
+    def draw(self):
+        ...
+
+
+class Shape:
+    pass
+
+
+class Circle(Shape, Drawable):
+    def draw(self):
+        return 1
+
+
+class Line(Shape):
+    pass
+
+
+class Arc(Shape):
+    pass
+
+
+class Dot(Shape):
+    pass
+
+
+class Blob(Shape):
+    pass
+
+
+class Ring(Shape):
+    pass
+
+
+class Sized0(_abc.Sized):
+    def __len__(self):
+        return 0
+
+
+class L1:
+    def __len__(self):
+        return 1
+
+
+class L2(L1):
+    pass
+
+
+class L3(L1):
+    pass
+
+
+class L4(L1):
+    pass
+
+
+class L5(L1):
     pass
 
 
@@ -103,6 +167,13 @@ def pools(mod, k):
                   T(mod.K.m, {"self": mod.K(), "x": {"k": [None, 1]}}, [])],
         "td_name_collision": [T(mod.f, {"a": {"p": 1}, "b": None}, 1), T(mod.h, {"a": {"z": 1.5}}, 2)],
         "mi_large_union": [T(mod.h, {"a": c()}, 0) for c in (mod.X, mod.Y, mod.Z, mod.X2, mod.Y2, mod.Z2)],
+        # a Protocol that is not runtime-checkable among the bases of one member (issubclass refuses it), and an ABC with a
+        # __subclasshook__ in the MRO of one member only (the others are virtual subclasses)
+        "protocol_large_union": [T(mod.h, {"a": c()}, 0) for c in (mod.Circle, mod.Line, mod.Arc, mod.Dot, mod.Blob, mod.Ring)],
+        "virtual_abc_union": [T(mod.h, {"a": c()}, 0) for c in (mod.Sized0, mod.L1, mod.L2, mod.L3, mod.L4, mod.L5)],
+        # a store that also holds a row of `h` whose argument class no longer exists (inserted below, dated at random): the
+        # decodable rows of `h` must reach the stub wherever the stale row comes in the result
+        "stale_row": [T(mod.h, {"a": 1}, 1), T(mod.h, {"a": "s"}, None), T(mod.h, {"a": 2.5}, [1]), T(mod.f, {"a": 1, "b": None}, 1)],
         # positions that only ever see containers of two kinds (lists and sets, tuples of two lengths, dict and defaultdict)
         "container_families": [T(mod.h, {"a": [1, 2]}, (1,)), T(mod.h, {"a": {"s"}}, ("s", 2)), T(mod.h, {"a": ["x"]}, {"k": 1}),
                                T(mod.h, {"a": {2.5}}, collections.defaultdict(int, {"k": 1}))],
@@ -171,6 +242,16 @@ def run(pid, tier, seed):
                         for rid in ids:
                             conn.execute("update monkeytype_call_traces set created_at = ? where rowid = ?",
                                          ("2024-01-%02d 10:00:00.000000" % chk.rng.randrange(1, 6), rid))
+                        conn.commit()
+                        conn.close()
+                    if pname == "stale_row":
+                        conn = sqlite3.connect(db)
+                        stale = json.dumps({"a": {"module": modname, "qualname": "GoneClass"}})
+                        when = "2000-01-01 10:00:00.000000" if vi == 0 else "2024-01-%02d 10:00:00.000000" % chk.rng.randrange(1, 7)
+                        if vi == 1:
+                            when = "2030-01-01 10:00:00.000000"       # the stale row is the newest: it comes first
+                        conn.execute("insert into monkeytype_call_traces values (?, ?, ?, ?, ?, ?)",
+                                     (when, modname, "h", stale, json.dumps({"module": "builtins", "qualname": "int"}), None))
                         conn.commit()
                         conn.close()
                     for rew in ("default", "norewrite"):
